@@ -145,11 +145,16 @@ pub fn pino_transfer_from_owner_to_vault(authority_info: &AccountInfo, token_own
 #[verifier::external_body]
 pub fn pino_transfer_from_owner_to_vault_v2(authority_info: &AccountInfo, token_mint_info: &AccountInfo, token_owner_account_info: &AccountInfo, token_vault_info: &AccountInfo, token_program_info: &AccountInfo,
     memo_program_info: &AccountInfo, transfer_hook_account_infos: &Option<Vec<&AccountInfo>>, amount: u64) -> (r: Result<()>)
-    ensures r is Ok ==> moved(token_owner_account_info.k, token_vault_info.k, amount) { unimplemented!() }
+    ensures r is Ok ==> moved(token_owner_account_info.k, token_vault_info.k, amount)
+        && pino_moved_with(token_owner_account_info.k, token_vault_info.k, token_mint_info.k, token_program_info.k, pino_hook_tag(*transfer_hook_account_infos)) { unimplemented!() }
 #[verifier::external_body]
 pub fn pino_transfer_from_vault_to_owner_v2(whirlpool: &MemoryMappedWhirlpool, whirlpool_info: &AccountInfo, token_mint_info: &AccountInfo, token_vault_info: &AccountInfo, token_owner_account_info: &AccountInfo,
     token_program_info: &AccountInfo, memo_program_info: &AccountInfo, transfer_hook_account_infos: &Option<Vec<&AccountInfo>>, amount: u64, memo: &[u8]) -> (r: Result<()>)
-    ensures r is Ok ==> moved(token_vault_info.k, token_owner_account_info.k, amount) { unimplemented!() }
+    ensures r is Ok ==> moved(token_vault_info.k, token_owner_account_info.k, amount)
+        && pino_moved_with(token_vault_info.k, token_owner_account_info.k, token_mint_info.k, token_program_info.k, pino_hook_tag(*transfer_hook_account_infos)) { unimplemented!() }
+/// C16 / C15: a token-extension transfer is made WITH the mint account, the token program and the transfer-hook accounts of the token side it moves
+pub uninterp spec fn pino_moved_with(from: Pubkey, to: Pubkey, mint: Pubkey, program: Pubkey, hooks: int) -> bool;
+pub uninterp spec fn pino_hook_tag(h: Option<Vec<&AccountInfo>>) -> int;
 //@ root programs/whirlpool/src
 //@ enum util/v2/remaining_accounts_utils.rs AccountsType
 //@ struct util/v2/remaining_accounts_utils.rs RemainingAccountsSlice RemainingAccountsInfo
@@ -165,9 +170,21 @@ pub mod transfer_memo { pub const TRANSFER_MEMO_DECREASE_LIQUIDITY: &'static str
 pub fn memo_bytes(s: &'static str) -> (r: &'static [u8]) { s.as_bytes() }
 //@ subst /transfer_memo::TRANSFER_MEMO_DECREASE_LIQUIDITY\.as_bytes\(\)/ => /memo_bytes(transfer_memo::TRANSFER_MEMO_DECREASE_LIQUIDITY)/
 //@ enum pinocchio/events.rs Event
+/// what an emitted event reports (C06 / C08: indexers and the SDK read the moved amounts and fees from here)
+pub uninterp spec fn pino_emitted<'a>(e: Event<'a>) -> bool;
 impl<'a> Event<'a> {
     #[verifier::external_body]
-    pub fn emit(&self) -> (r: Result<()>) { unimplemented!() }
+    pub fn emit(&self) -> (r: Result<()>) ensures r is Ok ==> pino_emitted(*self) { unimplemented!() }
+}
+/// a LiquidityIncreased / LiquidityDecreased event with exactly these contents
+pub open spec fn liq_event_is<'a>(e: Event<'a>, increased: bool, wp: Pubkey, pos: Pubkey, lo: i32, hi: i32, liq: u128, a: u64, b: u64, fa: u64, fb: u64) -> bool {
+    match e {
+        Event::LiquidityIncreased { whirlpool, position, tick_lower_index, tick_upper_index, liquidity, token_a_amount, token_b_amount, token_a_transfer_fee, token_b_transfer_fee } =>
+            increased && *whirlpool == wp && *position == pos && tick_lower_index == lo && tick_upper_index == hi && liquidity == liq && token_a_amount == a && token_b_amount == b && token_a_transfer_fee == fa && token_b_transfer_fee == fb,
+        Event::LiquidityDecreased { whirlpool, position, tick_lower_index, tick_upper_index, liquidity, token_a_amount, token_b_amount, token_a_transfer_fee, token_b_transfer_fee } =>
+            !increased && *whirlpool == wp && *position == pos && tick_lower_index == lo && tick_upper_index == hi && liquidity == liq && token_a_amount == a && token_b_amount == b && token_a_transfer_fee == fa && token_b_transfer_fee == fb,
+        _ => false,
+    }
 }
 pub mod instruction {
     use vstd::prelude::*;
@@ -254,6 +271,9 @@ pub open spec fn position_accounts_ok(pool: AccountInfo, position: AccountInfo, 
     }
 //@ inject at /^\{/
     let ghost old_data = data;
+//@ inject before /^    Ok\(\(\)\)$/
+    // the event reports THIS pool and position, the position's range, the liquidity change and, per token side, the amount moved and the fee withheld
+    proof { assert(exists|e: Event| #[trigger] pino_emitted(e) && liq_event_is(e, false, whirlpool_info.k, position_info.k, position.v.view().tick_lower_index, position.v.view().tick_upper_index, data.liquidity_amount, delta_a, delta_b, 0, 0)); } //# C06 C08 C16
 //@ end
 
 /// increase_liquidity (plain SPL tokens): same account relations and authority rule (a locked position may still add liquidity); (C08) the deposits are the
@@ -277,6 +297,9 @@ pub open spec fn position_accounts_ok(pool: AccountInfo, position: AccountInfo, 
     }
 //@ inject at /^\{/
     let ghost old_data = data;
+//@ inject before /^    Ok\(\(\)\)$/
+    // the event reports THIS pool and position, the position's range, the liquidity change and, per token side, the amount moved and the fee withheld
+    proof { assert(exists|e: Event| #[trigger] pino_emitted(e) && liq_event_is(e, true, whirlpool_info.k, position_info.k, position.v.view().tick_lower_index, position.v.view().tick_upper_index, data.liquidity_amount, delta_a, delta_b, 0, 0)); } //# C06 C08 C16
 //@ end
 
 /// C15 for the token-extension aware variants: additionally each token program is the owner of its mint account and the two mint accounts are the pool's mints
@@ -305,10 +328,16 @@ pub open spec fn v2_mints_ok(pool: AccountInfo, program_a: AccountInfo, program_
         assert(liquidity_delta as int == -(d.liquidity_amount as int)); //# C08 C05
         assert(token_deltas_spec(whirlpool.v.tick_current_index_v() as int, whirlpool.v.sqrt_price_v() as int, position.v.view().tick_lower_index as int, position.v.view().tick_upper_index as int, liquidity_delta as int, delta_a as int, delta_b as int)); //# C08
         assert(moved(accounts@[11].k, accounts@[9].k, delta_a) && moved(accounts@[12].k, accounts@[10].k, delta_b)); //# C06 C01 C15 C16
+        // each transfer uses the mint account, token program and transfer-hook accounts of ITS token
+        assert(pino_moved_with(accounts@[11].k, accounts@[9].k, accounts@[7].k, accounts@[1].k, pino_hook_tag(remaining_accounts.transfer_hook_a))
+            && pino_moved_with(accounts@[12].k, accounts@[10].k, accounts@[8].k, accounts@[2].k, pino_hook_tag(remaining_accounts.transfer_hook_b))); //# C16 C15
         assert(transfer_fee_excluded_delta_a.transfer_fee as int == pino_mint_fee(accounts@[7], delta_a as int) && transfer_fee_excluded_delta_b.transfer_fee as int == pino_mint_fee(accounts@[8], delta_b as int)); //# C16
     }
 //@ inject at /^\{/
     let ghost old_data = data;
+//@ inject before /^    Ok\(\(\)\)$/
+    // the event reports THIS pool and position, the position's range, the liquidity change and, per token side, the amount moved and the fee withheld
+    proof { assert(exists|e: Event| #[trigger] pino_emitted(e) && liq_event_is(e, false, whirlpool_info.k, position_info.k, position.v.view().tick_lower_index, position.v.view().tick_upper_index, data.liquidity_amount, delta_a, delta_b, transfer_fee_excluded_delta_a.transfer_fee, transfer_fee_excluded_delta_b.transfer_fee)); } //# C06 C08 C16
 //@ end
 
 /// increase_liquidity_v2: as increase_liquidity; (C16/C08) the owner is charged the delta grossed up with the mint's transfer fee so that the vault receives
@@ -332,9 +361,14 @@ pub open spec fn v2_mints_ok(pool: AccountInfo, program_a: AccountInfo, program_
         assert(liquidity_delta as int == d.liquidity_amount as int); //# C08 C05
         assert(token_deltas_spec(whirlpool.v.tick_current_index_v() as int, whirlpool.v.sqrt_price_v() as int, position.v.view().tick_lower_index as int, position.v.view().tick_upper_index as int, liquidity_delta as int, delta_a as int, delta_b as int)); //# C08
         assert(moved(accounts@[9].k, accounts@[11].k, ca) && moved(accounts@[10].k, accounts@[12].k, cb)); //# C06 C01 C15 C16
+        assert(pino_moved_with(accounts@[9].k, accounts@[11].k, accounts@[7].k, accounts@[1].k, pino_hook_tag(remaining_accounts.transfer_hook_a))
+            && pino_moved_with(accounts@[10].k, accounts@[12].k, accounts@[8].k, accounts@[2].k, pino_hook_tag(remaining_accounts.transfer_hook_b))); //# C16 C15
     }
 //@ inject at /^\{/
     let ghost old_data = data;
+//@ inject before /^    Ok\(\(\)\)$/
+    // the event reports THIS pool and position, the position's range, the liquidity change and, per token side, the amount moved and the fee withheld
+    proof { assert(exists|e: Event| #[trigger] pino_emitted(e) && liq_event_is(e, true, whirlpool_info.k, position_info.k, position.v.view().tick_lower_index, position.v.view().tick_upper_index, data.liquidity_amount, transfer_fee_included_delta_a.amount, transfer_fee_included_delta_b.amount, transfer_fee_included_delta_a.transfer_fee, transfer_fee_included_delta_b.transfer_fee)); } //# C06 C08 C16
 //@ end
 
 pub open spec fn bta_method(d: instruction::IncreaseLiquidityByTokenAmountsV2) -> (u64, u64, u128, u128) {
@@ -363,9 +397,14 @@ pub open spec fn bta_method(d: instruction::IncreaseLiquidityByTokenAmountsV2) -
         assert(liquidity_delta as int == liquidity_amount as int && liquidity_amount != 0); //# C08 C05
         assert(token_deltas_spec(whirlpool.v.tick_current_index_v() as int, current_sqrt_price as int, position.v.view().tick_lower_index as int, position.v.view().tick_upper_index as int, liquidity_delta as int, delta_a as int, delta_b as int)); //# C08
         assert(moved(accounts@[9].k, accounts@[11].k, ca) && moved(accounts@[10].k, accounts@[12].k, cb)); //# C06 C01 C15 C16
+        assert(pino_moved_with(accounts@[9].k, accounts@[11].k, accounts@[7].k, accounts@[1].k, pino_hook_tag(remaining_accounts.transfer_hook_a))
+            && pino_moved_with(accounts@[10].k, accounts@[12].k, accounts@[8].k, accounts@[2].k, pino_hook_tag(remaining_accounts.transfer_hook_b))); //# C16 C15
     }
 //@ inject at /^\{/
     let ghost old_data = data;
+//@ inject before /^    Ok\(\(\)\)$/
+    // the event reports THIS pool and position, the position's range, the liquidity change and, per token side, the amount moved and the fee withheld
+    proof { assert(exists|e: Event| #[trigger] pino_emitted(e) && liq_event_is(e, true, whirlpool_info.k, position_info.k, position.v.view().tick_lower_index, position.v.view().tick_upper_index, liquidity_amount, transfer_fee_included_delta_a.amount, transfer_fee_included_delta_b.amount, transfer_fee_included_delta_a.transfer_fee, transfer_fee_included_delta_b.transfer_fee)); } //# C06 C08 C16
 //@ end
 
 // ------------------------------------------------------------------ reposition_liquidity_v2
@@ -391,6 +430,11 @@ pub open spec fn bta_method(d: instruction::IncreaseLiquidityByTokenAmountsV2) -
 //@ fn pinocchio/instructions/reposition_liquidity_v2.rs execute_token_delta_transfers -> r tags=C06,C15,C16 canary
     ensures r is Ok ==> (if is_token_a_transfer_from_owner { moved(token_owner_account_a.k, token_vault_a.k, token_a_delta) } else { moved(token_vault_a.k, token_owner_account_a.k, token_a_delta) })
                      && (if is_token_b_transfer_from_owner { moved(token_owner_account_b.k, token_vault_b.k, token_b_delta) } else { moved(token_vault_b.k, token_owner_account_b.k, token_b_delta) }),
+        // each transfer uses the mint, token program and the deposit / withdrawal transfer-hook accounts of ITS token and direction
+        r is Ok ==> (if is_token_a_transfer_from_owner { pino_moved_with(token_owner_account_a.k, token_vault_a.k, token_mint_a.k, token_program_a.k, pino_hook_tag(remaining_accounts.transfer_hook_deposit_a)) }
+                     else { pino_moved_with(token_vault_a.k, token_owner_account_a.k, token_mint_a.k, token_program_a.k, pino_hook_tag(remaining_accounts.transfer_hook_withdrawal_a)) })
+                 && (if is_token_b_transfer_from_owner { pino_moved_with(token_owner_account_b.k, token_vault_b.k, token_mint_b.k, token_program_b.k, pino_hook_tag(remaining_accounts.transfer_hook_deposit_b)) }
+                     else { pino_moved_with(token_vault_b.k, token_owner_account_b.k, token_mint_b.k, token_program_b.k, pino_hook_tag(remaining_accounts.transfer_hook_withdrawal_b)) }), //# C16 C15
 //@ end
 /// removing everything from the existing range: nothing to do for an empty position; otherwise both tick arrays must belong to the pool, the amounts are the rounded-down deltas
 //@ fn pinocchio/instructions/reposition_liquidity_v2.rs decrease_liquidity_from_existing_range -> r tags=C15,C08,C05 canary
